@@ -53,7 +53,7 @@ static void h_page_free(void *p);
 
 #define PAGE ((size_t)AWS_SBA_PAGE_SIZE)
 #define HP_WANT_BASE ((uintptr_t)0x600000000000ull)
-#define HP_NPAGES 64
+#define HP_NPAGES 24
 #define HP_STRIDE (2 * PAGE) /* page + poisoned guard gap; keeps PAGE alignment */
 
 static uint8_t *hp_base;
@@ -167,6 +167,7 @@ struct profile {
     int depth_quick, depth_thorough; /* 0 = not run in that tier */
     int page_sizes;       /* bit 0: run in the default-page build, bit 1: run in the 2048 build */
     int with_calloc;      /* calloc(n,size) symbols in the alphabet (same successor states as acquire) */
+    int depth_dbg;        /* depth in the DEBUG_BUILD harness (library assertions live), 0 = not run there */
 };
 static const struct profile *g_p;
 static char g_name[80];
@@ -196,7 +197,6 @@ struct slot {
 };
 static struct slot sl[MAXSLOT];
 static int g_step;         /* operations applied since reset */
-static int g_reset_toklen; /* number of ops in the engine's token at reset time (see new_op_detect) */
 
 static inline uint8_t pat(uint32_t key, size_t i) {
     uint32_t x = key * 0x9E3779B1u + (uint32_t)i * 0x85EBCA6Bu;
@@ -211,15 +211,6 @@ static long verify_prefix(const uint8_t *p, uint32_t key, size_t n) {
     for (size_t i = 0; i < n; ++i)
         if (p[i] != pat(key, i)) return (long)i;
     return -1;
-}
-
-static int token_ops(const char *tok) {
-    const char *c = strrchr(tok, ':');
-    if (!c || !c[1]) return 0;
-    int n = 1;
-    for (++c; *c; ++c)
-        if (*c == '.') ++n;
-    return n;
 }
 
 static struct small_block_allocator *impl(void) { return (struct small_block_allocator *)g_sba->impl; }
@@ -257,7 +248,6 @@ static void m_reset(void) {
     hp_reset();
     g_new_op = 0;
     g_step = 0;
-    g_reset_toklen = token_ops(v_get_crumb());
     memset(sl, 0, sizeof(sl));
     g_sba = aws_small_block_allocator_new(galloc_get(g_p->galloc_mode, 0), g_p->multi_threaded != 0);
     if (!g_sba) {
@@ -381,8 +371,8 @@ static void pooled_or_forwarded(size_t size, size_t cls, const char *what) {
 static void m_apply(int op) {
     char nm[96];
     m_opname(op, nm, sizeof(nm));
-    g_new_op = token_ops(v_get_crumb()) != g_reset_toklen;
-    g_verify = g_new_op || v_replay_token != NULL;
+    g_new_op = !esx_in_replay; /* (--replay applies every step as a new transition: all of them are verified) */
+    g_verify = g_new_op;
     struct wb w0, w1;
     wb_take(&w0);
     ++g_step;
@@ -620,12 +610,16 @@ static struct esx_model model = {
 /* Profiles.  The full alphabet of ten sizes is explored to a moderate depth; the per-bin page mechanics
  * (exhaustion, turn-over, purge of the free list when a page goes back) need many blocks of ONE class and
  * are explored to depth 9+ with sub-alphabets that keep the branching small. */
+#define ALL10 {1, 32, 33, 64, 65, 256, 257, 512, 513, 700}
 static const struct profile profiles[] = {
-    /* name   ns sizes                                        mt gm  dq dt pages calloc */
-    {"full", 10, {1, 32, 33, 64, 65, 256, 257, 512, 513, 700}, 0, 0, 4, 6, 3, 1},
-    {"big", 3, {257, 512, 513}, 0, 2, 7, 9, 3, 1},
-    {"d512", 1, {512}, 0, 0, 12, 16, 1, 0},
-    {"d256", 1, {256}, 0, 0, 12, 16, 2, 0},
+    /* name   ns sizes            mt gm  dq  dt pages calloc dbg */
+    {"full", 10, ALL10,            0, 0,  5,  6, 1, 1, 0}, /* default page: every size, every realloc pair */
+    {"full", 10, ALL10,            0, 0,  5,  7, 2, 1, 4}, /* 2048-byte page */
+    {"full", 10, ALL10,            1, 1,  4,  5, 1, 1, 0}, /* multi_threaded=true: per-bin mutexes taken on one thread */
+    {"big",   3, {257, 512, 513},  0, 2,  8,  9, 3, 1, 8}, /* bin 512 + parent: 3 blocks per 2048 page, 7 per 4096 page */
+    {"big",   3, {257, 512, 513},  1, 1,  7,  9, 2, 1, 6},
+    {"d512",  1, {512},            0, 0, 10, 14, 1, 0, 0}, /* 7 blocks per page: exhaustion at 7, page freed at 14 */
+    {"d256",  1, {256},            0, 0, 10, 14, 2, 0, 0},
 };
 
 int main(int argc, char **argv) {
@@ -647,6 +641,9 @@ int main(int argc, char **argv) {
         }
         if (only && !strstr(g_name, only)) continue;
         int depth = v_thorough() ? g_p->depth_thorough : g_p->depth_quick;
+#ifdef SBASEQ_DEBUG_ONLY
+        depth = g_p->depth_dbg;
+#endif
         if (dep) depth = atoi(dep);
         if (depth <= 0) continue;
         NSLOT = depth < MAXSLOT ? depth : MAXSLOT;
